@@ -410,7 +410,7 @@ func TestC08(t *testing.T) {
 	hx.Check[c08Case]{
 		Property: "C08", Part: "nestings",
 		Rule:  "generated two- and three-level nestings (1-2 steps per level, 1-2 functionaries per step with threshold = all, optional logging inspections per level, both wrappers and entry points) with at most one defect at one place of one functionary's evidence (missing/forged/tampered link, rule violation, unsatisfied threshold, sublayout with foreign or bad signature, sublayout without its link directory, expired sublayout, failing sublayout inspection), parent rules that require a product the sublayout does not deliver or forbid an artifact that never leaves the sublayout, sign-off last steps without products, and an unauthorised functionary offering a sublayout whose inspection writes a marker; accept iff no defect, marker never written; non-trivial = depth >= 2; distinct by case JSON",
-		Cases: hx.Pick(600, 8000),
+		Cases: hx.Pick(600, 60000),
 		Gen:   c08Gen, Run: c08Run,
 	}.Execute(t)
 }
